@@ -43,7 +43,7 @@ def gen_script(ctx, q):
             if formats.name(f).split("/")[0] != "RAW":
                 L.append("store %d append %s" % (sid, "".join("%02x" % rng.below(256) for _ in range(nb))))
                 dist["junk_tail"] += 1
-        L.append("open 0 %d r 0 0 0" % sid)
+        L.append(("open 0 %d r 0 0 0" % sid) if not formats.name(f).startswith("RAW/") else "open 0 %d r %x %d 8000" % (sid, f, ch))      # header-less: opened with its parameters
         # reads through every entry point: small, straddling the end, at the end, misaligned
         pos = 0
         for step in range(rng.range(4, 9)):
@@ -148,7 +148,8 @@ def block_codec_oracle(ctx, q):
         L.append("open 0 %d w %x %d 8000" % (sid, f, ch))
         L.append("w 0 s f %d %s" % (nfr, " ".join(str(rng.range(-20000, 20000)) for _ in range(40))))
         L.append("close 0")
-        L.append("open 0 %d r 0 0 0" % sid)
+        rawp = ("%x %d 8000" % (f, ch)) if formats.name(f).startswith("RAW/") else "0 0 0"      # header-less files are opened with their parameters
+        L.append("open 0 %d r %s" % (sid, rawp))
         o = len(L)
         for step in range(6 if q else 20):
             t = rng.choice("sifd")
@@ -167,7 +168,7 @@ def block_codec_oracle(ctx, q):
         L.append("open 0 %d w %x %d 8000" % (sid, f, ch))
         L.append("w 0 s f %d %s" % (big, " ".join(str(rng.range(-20000, 20000)) for _ in range(40))))
         L.append("close 0")
-        L.append("open 0 %d r 0 0 0" % sid)
+        L.append("open 0 %d r %s" % (sid, rawp))
         for (t, items) in (("i", 4097), ("f", 5000), ("d", 2049), ("s", 4099)):
             k = (items + ch - 1) // ch
             L.append("r 0 %s i %d" % (t, k * ch))
